@@ -556,6 +556,49 @@ def rule_set_then_get(chk, fb, rid="C09.j"):
                 n += 1
 
 
+def rule_every_token(chk, fb, kernels, rid, floor=1):
+    """Every operand of the formula is visited: the kernel's loop over the token list ends only when the list is
+    exhausted.  An early exit (`break`, `return`) taken for one operand - say, the first reference that leaves the grid -
+    leaves every later reference untranslated."""
+    r = chk.rule(
+        rid,
+        "every token is visited: the formula kernel's loop over the token list is left only through the exhaustion test of its iterator - no other edge leaves the loop (no break / return inside it)",
+        floor=floor,
+    )
+    for d in sorted(kernels):
+        b = fb.mir[d]
+        fl = Flow(fb, b)
+        cfg = CFG(b)
+        loops = {}
+        for tl, h in cfg.back_edges():
+            loops.setdefault(h, set()).update(cfg.natural_loop(tl, h))
+        # the loop driven by an iterator over the token list parameter (argument 1)
+        outer = None
+        for h, body in sorted(loops.items(), key=lambda x: -len(x[1])):
+            nx = [bi for bi, t in fl.calls() if bi in body and t.get("fn", "").endswith("::next") and ("arg", 1) in fl.atoms(t["args"][0], stop_calls=lambda f: f in fb.mir)]
+            if nx:
+                outer = (h, body, nx)
+                break
+        chk.touch(d)
+        if not outer:
+            # driven by an iterator adaptor with a closure (for_each ...): a closure cannot break out of the traversal
+            adaptor = any(t.get("fn", "").split("::")[-1] in ("for_each", "map", "fold", "try_for_each") and ("arg", 1) in fl.atoms(t["args"][0], stop_calls=lambda f: f in fb.mir) for _, t in fl.calls() if t["args"])
+            chk.ob(r, "%s:token-loop" % d.split("::")[-1], adaptor, where=fb.loc(d), detail="no loop over the token list; traversal by an iterator adaptor with a closure: %s" % adaptor)
+            continue
+        h, body, nx = outer
+        bad = []
+        for u in sorted(body):
+            for v in cfg.succ[u]:
+                if v in body or b["blocks"][v]["t"]["k"] == "unreachable":
+                    continue
+                t = b["blocks"][u]["t"]
+                exhausted = t["k"] == "switch" and any(a[0] == "call" and a[2] in nx for a in fl.atoms(t["op"], through_calls=False))
+                if not exhausted:
+                    bad.append(t.get("ln"))
+        chk.ob(r, "%s:token-loop" % d.split("::")[-1], not bad, where="%s:%s" % (b["file"], bad[0] if bad else b["blocks"][h]["t"].get("ln")),
+               detail="exits of the token loop other than iterator exhaustion: %s" % (sorted(set(bad)) or "none"))
+
+
 def rule_whole_reference(chk, fb, kernels, rid, floor=1):
     """A name that merely starts like a reference (Q1_SALES, FY23_TOTAL) is not one: the kernels rewrite a piece of an
     operand only when the parser's answer accounts for the whole piece."""
@@ -618,6 +661,16 @@ def effective_kernel(fb, d):
         for st in bl["s"]:
             if st["k"] == "assign" and st["rv"]["k"] == "agg" and st["rv"].get("ak") == "closure":
                 captures[st["rv"]["closure"]] = [fl_d.atoms(o) for o in st["rv"].get("ops", [])]
+    # the per-token work sits in a closure of d (token_list.iter_mut().for_each(|token| ...)): the closure is the body; the
+    # kernel's parameters reach it as captures, numbered -(slot + 1) by arg_ids()
+    for c in sorted(x for x in fb.mir if x.startswith(d + "::{closure") and x.count("{closure") == d.count("{closure") + 1):
+        if any(is_parser(fb, t.get("fn", "")) for _, t in fb.calls_in(fb.mir[c])):
+            amap = {}
+            for slot, at in enumerate(captures.get(c, [])):
+                ks = {y[1] for y in at if y[0] == "arg"}
+                if len(ks) == 1:
+                    amap[next(iter(ks))] = -(slot + 1)
+            return c, amap
     for c in [d] + sorted(x for x in fb.mir if x.startswith(d + "::{closure")):
         cb = fb.mir[c]
         fl = fl_d if c == d else Flow(fb, cb)
@@ -640,6 +693,20 @@ def effective_kernel(fb, d):
                     amap[next(iter(ks))] = i + 1
             return f, amap
     return d, ident
+
+
+def _own_component(atoms, axis):
+    """The value derives from this axis' component of the parsed coordinate and not from the other one."""
+    own, other = ("0", "1") if axis == "col" else ("1", "0")
+    return ("field", "tuple", own) in atoms and ("field", "tuple", other) not in atoms
+
+
+def arg_ids(eff, atoms):
+    """Parameter numbers among the atoms; in a closure body the captured slots count as parameters -(slot + 1)."""
+    out = {a[1] for a in atoms if a[0] == "arg"}
+    if "{closure" in eff:
+        out |= {-(int(a[2]) + 1) for a in atoms if a[0] == "field" and a[1] == "closure:" + eff and str(a[2]).isdigit()}
+    return out
 
 
 def rule_translate(chk, fb, d):
@@ -671,8 +738,17 @@ def rule_translate(chk, fb, d):
         first = ds[0]
         at = fl.atoms(l)
         # which field of the parse tuple does the initial definition come from?
+        a0 = None
         if first[0] == "call":
             a0 = fl.atoms(first[3]["args"][0], stop_calls=STOP) if first[3]["args"] else set()
+        elif first[0] == "rv":
+            # bound by a pattern: `if let (Some(mut col), Some(mut row)) = (cell.0, cell.1)`
+            a0 = set()
+            for o_ in __import__("facts").rv_operands(first[3]):
+                a0 |= fl.atoms(o_, stop_calls=STOP)
+            if not any(a[0] == "call" and STOP(a[1]) for a in a0):
+                a0 = None
+        if a0 is not None:
             for axis, f in (("col", "0"), ("row", "1")):
                 if ("field", "tuple", f) in a0 and not any(("field", "tuple", g) in a0 for g in "0123" if g != f):
                     comps[axis] = l
@@ -698,10 +774,28 @@ def rule_translate(chk, fb, d):
                     for dd in fl.defs.get(t["op"]["p"]["l"], []):
                         if dd[0] == "rv" and dd[3]["k"] == "bin" and dd[3]["op"] in ("Lt", "Le", "Gt", "Ge"):
                             var = dd[3]["a"] if "p" in dd[3]["a"] else dd[3]["b"]
-                            var_calls = {a for a in fl.atoms(var, stop_calls=STOP) if a[0] == "call"}
+                            var_at = fl.atoms(var, stop_calls=STOP)
+                            var_calls = {a for a in var_at if a[0] == "call"}
                             # only comparisons of THIS shifted value count (not the other axis' range check)
-                            if var_calls & src_calls - {a for a in src_calls if STOP(a[1])}:
+                            if (var_calls & src_calls - {a for a in src_calls if STOP(a[1])}) or _own_component(var_at, axis):
                                 cmp_consts.append((dd[3]["op"], dd[3]["a"].get("i"), dd[3]["b"].get("i"), deps[x], t))
+                    # ... or a membership test on a constant range: !(1..=16384).contains(&shifted)
+                    for a in fl.atoms(t["op"], stop_calls=STOP):
+                        if a[0] == "call" and a[1].split("::")[-1] == "contains":
+                            ct = body["blocks"][a[2]]["t"]
+                            if "Range" not in ct.get("impl_self", "") or len(ct["args"]) < 2:
+                                continue
+                            item_at = fl.atoms(ct["args"][1], stop_calls=STOP)
+                            item_calls = {y for y in item_at if y[0] == "call"}
+                            if not (item_calls & src_calls - {y for y in src_calls if STOP(y[1])}) and not _own_component(item_at, axis):
+                                continue
+                            cs = sorted(y[1] for y in fl.atoms(ct["args"][0]) if y[0] == "const" and isinstance(y[1], int))
+                            if len(cs) >= 2:
+                                lo, hi = cs[0], cs[-1]
+                                if not ct.get("impl_self", "").startswith("std::ops::RangeInclusive"):
+                                    hi -= 1  # half-open
+                                cmp_consts.append(("Lt", None, lo, deps[x], t))
+                                cmp_consts.append(("Gt", None, hi, deps[x], t))
             own = ("field", "tuple", own_flag) in flag_atoms
             crossed = ("field", "tuple", other_flag) in flag_atoms and not own
             chk.ob(
@@ -714,7 +808,9 @@ def rule_translate(chk, fb, d):
             src = set()
             for o_ in __import__("facts").rv_operands(rv):
                 src |= fl.atoms(o_, stop_calls=STOP)
-            args = {a[1] for a in src if a[0] == "arg"}
+            args = arg_ids(eff, src)
+            if "{closure" in eff:
+                args -= {1, 2}  # the closure's own environment and item parameter
             chk.ob(
                 rid,
                 "%s:%s:own-offset#%d" % (d, axis, n),
@@ -755,7 +851,7 @@ def one_sided(chk, fb, d, rid_prefix, name=None):
     rid = chk.rule(
         rid_prefix + ".unwrap",
         "one-sided check: each unwrap() of an optional component (col/row) of the parsed coordinate is guarded by is_some() of that same component",
-        floor=2,
+        floor=0,  # a kernel that binds the components by pattern has no unwrap to guard
     )
     for bi, t in fl.calls(lambda t: t.get("fn") == "std::option::Option::<T>::unwrap"):
         a = fl.atoms(t["args"][0], through_calls=False)
@@ -860,6 +956,7 @@ def run(chk, fb, tier):
         chk.ob("C09.anchor", "tokenizer:" + d, True, where=fb.loc(d), nontrivial=False)
     trs = find_translate(fb)
     rule_whole_reference(chk, fb, trs, "C09.h")
+    rule_every_token(chk, fb, trs, "C09.k")
     rule_error_table(chk, fb)
     rule_set_then_get(chk, fb)
     for d in trs:
